@@ -74,7 +74,14 @@ fn main() {
                 krate.global_problems.push(format!("Cargo.lock resolves winnow to {:?}; the combinators are described for {}", found, config::WINNOW_VERSION));
             }
         }
-        Err(_) => krate.global_problems.push("Cargo.lock not found next to src/".into()),
+        Err(_) => {
+            // no lock file (it is not tracked in the repository): the requirement in Cargo.toml decides
+            let toml = fs::read_to_string(format!("{}/../Cargo.toml", src)).unwrap_or_default();
+            let req = toml.lines().find(|l| l.trim_start().starts_with("winnow")).unwrap_or("").replace(' ', "");
+            if !(req.contains("\"0.6\"") || req.contains("\"0.6.") || req.contains("\"^0.6") || req.contains("\"=0.6.26")) {
+                krate.global_problems.push(format!("Cargo.toml requires `{}`; the combinators are described for winnow {}", req, config::WINNOW_VERSION));
+            }
+        }
     }
 
     let mut lean = String::new();
